@@ -15,7 +15,8 @@ LEVEL_TEXT = (
     "Structural necessary conditions decided on every path of merge/split_by/split_at/first/last/collect_into and the Treap "
     "wrappers in both profiles: lazy modifications are pushed before a node's children are detached or descended into, aggregates "
     "are recomputed after relinking, the positional split compares with and subtracts the same left-subtree size without underflow, "
-    "results are assembled in sequence order, traversal is in-order, insert/remove are the stated compositions. Agreement with a "
+    "results are assembled in sequence order, traversal is in-order, insert/remove are the stated compositions, a walk that tests a "
+    "child link before pushing the node does so only while the node-level push stores no child link. Agreement with a "
     "vector over all histories (the value identity) is not decided."
 )
 LEVEL_NOTE = "trusted: rustc MIR, exporter, std axioms (Option take/as_mut/unwrap/map, Box deref), ownership axiom for disjoint child fields; user TreapItem impls assumed lawful and free of interior mutability"
@@ -210,6 +211,27 @@ def check(col, prog, tier, profile, fixture=None):
         if nbranch < 2:
             col.violation("T1" + sfx, "%s|relink-branches" % kb_, b.loc(), "expected two relinking branches in %s, found %d" % (b.path, nbranch))
 
+    # ---------------- T8 (with T3): can the node-level push rewire the node's own child links?
+    # (a lazy reversal resolved in push swaps them: then a link tested BEFORE the push - `while node.left.is_some()
+    # { node.push(); .. }` - is the link of the unreversed shape)
+    push_rewires = None
+    Ip_ = R.A(R.push)
+    selfp_ = ("deref", ("param", 1, Ip_.names.get(1)))
+    for st in Ip_.all_end_states():
+        for e in st.event_list():
+            if e.kind == "store":
+                cf = child_field_of(strip_mem(e.place), R)
+                if cf and strip_mem(cf[0]) == selfp_:
+                    push_rewires = push_rewires or e
+            elif e.kind == "call" and e.extra.get("name") in ("swap", "replace", "take", "insert", "get_or_insert_with"):
+                for a in e.args:
+                    a = strip_mem(a)
+                    if isinstance(a, tuple) and a and a[0] == "ref":
+                        cf = child_field_of(a[1], R)
+                        if cf and strip_mem(cf[0]) == selfp_:
+                            push_rewires = push_rewires or e
+    col.rule("T8" + sfx, "a walk that tests a child link before pushing the node relies on push leaving the links alone: TreapNode::push stores no child link of its node", floor=2)
+
     # ---------------- T3 reading walks
     for nm, fld in (("first", R.LEFT), ("last", R.RIGHT)):
         b = util.need_body(crate, "Treap::<T>::%s" % nm)
@@ -246,6 +268,14 @@ def check(col, prog, tier, profile, fixture=None):
             pushes = [i for i, e in enumerate(evs) if i > li and is_call_to(e, R.push) and strip_mem(e.args[0]) == ("ref", SX)]
             moves = [i for i, e in enumerate(evs) if i > li and e.kind == "call" and e.extra.get("name") in ("as_mut", "as_deref_mut") and strip_mem(e.args[0]) == ("ref", ("field", SX, f))]
             ok = f == fld and pushes and moves and min(pushes) < min(moves)
+            # T8: links of X read before push(X)
+            early = [i for i, e in enumerate(evs) if i > li and e.kind == "call" and e.args and (not pushes or i < min(pushes)) and isinstance(strip_mem(e.args[0]), tuple)
+                     and strip_mem(e.args[0])[0] == "ref" and child_field_of(strip_mem(e.args[0])[1], R) and strip_mem(child_field_of(strip_mem(e.args[0])[1], R)[0]) == SX]
+            k8 = "%s|link-tested-before-push" % fk(b)
+            if early and push_rewires is not None:
+                col.violation("T8" + sfx, k8, b.loc(evs[early[0]].bb), "%s tests a child link of the node before pushing it, and %s can rewire the links (%s at %s): the walk follows the shape from before the pending change, so the element it returns is not the %s one" % (b.path, R.push.path, push_rewires.extra.get("name") if push_rewires.kind == "call" else "store", R.push.loc(push_rewires.bb), nm))
+            else:
+                col.ok("T8" + sfx, b.loc(), k8, "push stores no child link" if push_rewires is None else "no link is read before the push", nontrivial=False)
             if ok:
                 col.ok("T3" + sfx, b.loc(evs[pushes[0]].bb), key, "node.push() precedes the move to node.%s" % ("left" if f == R.LEFT else "right"))
             else:
